@@ -309,6 +309,10 @@ func init() {
 		Assumptions: []string{seqAssumption, "the combination non-exit error + allow_failure + fail-fast is a genuine race between the cancel goroutine and the scheduler loop: the oracle accepts both orders there (three-valued verdict)"},
 		Cases:       func(t string) int { return tierN(t, 1200, 30000) },
 		RunCase: func(c *CaseCtx) *CaseResult {
+			if c.Idx%40 == 19 {
+				// fail-fast also holds while a graceful shutdown is waiting for the job
+				return simpleCase(c, drv.RunShutdownDirectedCase(c.Seed, 0), 50)
+			}
 			if c.Idx%40 == 39 {
 				// real task runner, real exit statuses
 				return simpleCase(c, drv.RunOutputCase(c.Seed, drv.OutputOpts{Exe: selfExe(), WorkDir: c.TmpDir, MaxBytes: 5000}), 50)
@@ -625,6 +629,10 @@ func init() {
 				return simpleCase(c, drv.RunBinaryCase(c.Seed, bin, c.TmpDir, (c.Idx-nPersist)%2 == 1), 1)
 			}
 			k := c.Idx - nPersist - nBin
+			if k%20 == 19 {
+				// escalation: a forced shutdown while a graceful one is still waiting
+				return simpleCase(c, drv.RunShutdownDirectedCase(c.Seed, 1), 50)
+			}
 			o := drv.ShutdownOpts{Forced: k%2 == 1, SlowSave: (k/2)%2 == 0, Clients: (k/4)%4 != 3, HTTP: (k/16)%2 == 0, NoStore: k%32 == 31, NoFinisher: k%2 == 1 && (k/8)%2 == 0}
 			return simpleCase(c, drv.RunShutdownCase(c.Seed, o), 150)
 		},
